@@ -78,6 +78,7 @@ package extractor
 //@   ghostset at "for idx, str := range batch.Batch" : got_lines(s) := old(got_lines(s)) + len(batch.Batch)
 //@   ghostset at "s.readChan <- matchBatch" : sent_matches(s) := old(sent_matches(s)) + len(matchBatch)
 //@   assert at "s.readChan <- matchBatch" : wg_done(wg) == 0 && len(matchBatch) > 0
+//@   assert at "matchBatch = append(matchBatch, match)" : match.LineNumber == (batch.BatchStart + idx) % 18446744073709551616 && match.Source == batch.Source && ref(match.bLine) == ref(str) && off(match.bLine) == off(str) && len(match.bLine) == len(str) && len(match.Extracted) > 0
 //@   loop 1 invariant wg_done(wg) == 0 && !chan_closed(s.readChan) && si.Extractor == s && si.matcher != nil && si.context != nil && s.keyBuilder != nil
 //@   loop 1 invariant (s.readLines - old(s.readLines) - got_lines(s)) % 18446744073709551616 == 0
 //@   loop 1 invariant (s.matchedLines - old(s.matchedLines) - sent_matches(s)) % 18446744073709551616 == 0
@@ -85,7 +86,6 @@ package extractor
 //@   loop 2 invariant (s.readLines - old(s.readLines) - got_lines(s) + len(batch.Batch) - (rangeindex + 1)) % 18446744073709551616 == 0
 //@   loop 2 invariant (s.matchedLines - old(s.matchedLines) - sent_matches(s) - len(matchBatch)) % 18446744073709551616 == 0
 //@   loop 2 invariant len(matchBatch) <= rangeindex + 1 && rangelen() == len(batch.Batch) && rangeindex + 1 <= len(batch.Batch)
-//@   loop 2 invariant forall j in [0, len(matchBatch)) :: matchBatch[j].Source == batch.Source && len(matchBatch[j].Extracted) > 0
 
 // ---- C05: start-up and shut-down of the worker pool ----
 // Premises discharged here: every worker is started after its wg.Add(1); the channel is closed
